@@ -193,16 +193,7 @@ theorem adaptGroups_plain (st : St) : ∀ (l : List String), (∀ y ∈ l, st.bG
   intro l h
   unfold adaptGroups
   suffices hs : ∀ (l res : List String), (∀ y ∈ l, st.bGrpIdx y = none) →
-      l.foldl (fun (acc : List String × St) adr =>
-        let (res, st) := acc
-        match st.bGrpIdx adr with
-        | none => (res ++ [adr], st)
-        | some gbi =>
-          let gb := st.bGrp[gbi]?.getD default
-          if gb.onDev != "" then (res ++ [gb.onDev], st)
-          else
-            let (name, st) := findGroupOnDevice st gbi
-            if name != "" then (res ++ [name], st) else (res ++ [gb.newName], st)) (res, st) = (res ++ l, st) by
+      l.foldl adaptStep (res, st) = (res ++ l, st) by
     have := hs l [] h
     rw [List.nil_append] at this
     exact this
@@ -212,7 +203,9 @@ theorem adaptGroups_plain (st : St) : ∀ (l : List String), (∀ y ∈ l, st.bG
   | cons x xs ih =>
     intro res h
     have hx := h x (by simp)
-    simp only [List.foldl_cons, hx]
+    have hstep : adaptStep (res, st) x = (res ++ [x], st) := by
+      unfold adaptStep; simp only [hx]
+    simp only [List.foldl_cons, hstep]
     rw [ih (res ++ [x]) (fun y hy => h y (List.mem_cons_of_mem _ hy))]
     simp
 
@@ -228,6 +221,63 @@ theorem mem_extract {l : List String} {lo hi : Nat} {x : String} (h : x ∈ l.ex
 theorem getD_mem {l : List String} {i : Nat} (h : i < l.length) : l.getD i "" ∈ l := by
   simp only [List.getD_eq_getElem?_getD, List.getElem?_eq_getElem h, Option.getD_some]
   exact List.getElem_mem h
+
+theorem pairStep_plain (recur : St → List String → List String → MPath → Bool × St)
+    (la lb : List String) (r : Range) (s : St) (ins : List String)
+    (hsA : ∀ x ∈ la, s.aGrpIdx x = none) :
+    ∀ (ks : List Nat), (∀ k ∈ ks, r.lowA + k < la.length) →
+      ks.foldl (pairStep recur la lb r) (true, s, ins) = (true, s, ins) := by
+  intro ks
+  induction ks with
+  | nil => intro _; rfl
+  | cons k ks ih =>
+    intro hks
+    have hk0 := hsA _ (getD_mem (hks k (by simp)))
+    have hstep : pairStep recur la lb r (true, s, ins) k = (true, s, ins) := by
+      unfold pairStep; simp only [hk0, Bool.not_true, Bool.false_eq_true, if_false]
+    simp only [List.foldl_cons, hstep]
+    exact ih (fun k' hk' => hks k' (List.mem_cons_of_mem _ hk'))
+
+theorem rangeStep_plain (recur : St → List String → List String → MPath → Bool × St)
+    (la lb : List String) (path : MPath) :
+    ∀ (rs : List Range) (s : St) (ins : List String),
+      (∀ r ∈ rs, r.highA ≤ la.length) →
+      (∀ x ∈ la, s.aGrpIdx x = none) → (∀ y ∈ lb, s.bGrpIdx y = none) →
+      rs.foldl (rangeStep recur la lb path) (true, s, ins) =
+        (true, s.emitAll ((delNamesOf la rs).map path.delCmd), ins ++ insertedOf lb rs) := by
+  intro rs
+  induction rs with
+  | nil => intro s ins _ _ _; simp [delNamesOf, insertedOf, emitAll_nil]
+  | cons r rs ih =>
+    intro s ins hb hsA hsB
+    simp only [List.foldl_cons]
+    cases hk : r.kind with
+    | del =>
+      have hstep : rangeStep recur la lb path (true, s, ins) r =
+          (true, s.emitAll ((la.extract r.lowA r.highA).map path.delCmd), ins) := by
+        unfold rangeStep; simp only [hk, Bool.not_true, Bool.false_eq_true, if_false]
+      rw [hstep, ih (s.emitAll ((la.extract r.lowA r.highA).map path.delCmd)) ins
+        (fun r' hr' => hb r' (List.mem_cons_of_mem _ hr')) hsA hsB]
+      simp [delNamesOf, insertedOf, hk, emitAll_emitAll]
+    | ins =>
+      have hstep : rangeStep recur la lb path (true, s, ins) r =
+          (true, s, ins ++ lb.extract r.lowB r.highB) := by
+        unfold rangeStep
+        simp only [hk, Bool.not_true, Bool.false_eq_true, if_false,
+          adaptGroups_plain s _ (fun y hy => hsB y (mem_extract hy))]
+      rw [hstep, ih _ _ (fun r' hr' => hb r' (List.mem_cons_of_mem _ hr')) hsA hsB]
+      simp [delNamesOf, insertedOf, hk, List.append_assoc]
+    | eq =>
+      have hstep : rangeStep recur la lb path (true, s, ins) r = (true, s, ins) := by
+        unfold rangeStep
+        simp only [hk, Bool.not_true, Bool.false_eq_true, if_false]
+        exact pairStep_plain recur la lb r s ins hsA _ (by
+          intro k hk'
+          have := hb r (by simp)
+          simp only [List.mem_range] at hk'
+          omega)
+      rw [hstep, ih _ _ (fun r' hr' => hb r' (List.mem_cons_of_mem _ hr')) hsA hsB]
+      simp [delNamesOf, insertedOf, hk]
 
 /-- On lists that contain no group of either side, `hasEqualizedLists` is the heuristic
 followed by the plain incremental requests; the planner state changes in nothing but the
@@ -245,108 +295,138 @@ theorem hasEqLists_plain (diff : Differ) (fuel : Nat) (st : St) (la lb : List St
   rw [hasEqLists]
   generalize diff la.length lb.length (fun i j => memberEq st (la.getD i "") (lb.getD j "")) = rs at hbound ⊢
   split
-  · rename_i h; simp [h]
-  · rename_i hrep
-    simp only [hrep, Bool.false_eq_true, if_false]
-    -- the fold
-    have key : ∀ (rs' : List Range) (s : St) (ins : List String),
-        (∀ r ∈ rs', r.highA ≤ la.length) →
-        (∀ x ∈ la, s.aGrpIdx x = none) → (∀ y ∈ lb, s.bGrpIdx y = none) →
-        rs'.foldl (fun (acc : Bool × St × List String) r =>
-          let (ok, st, ins) := acc
-          if !ok then acc
-          else match r.kind with
-            | .del => (true, st.emitAll ((la.extract r.lowA r.highA).map path.delCmd), ins)
-            | .ins =>
-              let (l, st) := adaptGroups st (lb.extract r.lowB r.highB)
-              (true, st, ins ++ l)
-            | .eq =>
-              (List.range (r.highA - r.lowA)).foldl (fun (acc : Bool × St × List String) k =>
-                let (ok, st, ins) := acc
-                if !ok then acc
-                else
-                  match st.aGrpIdx (la.getD (r.lowA + k) "") with
-                  | none => acc
-                  | some gai =>
-                    match st.bGrpIdx (lb.getD (r.lowB + k) "") with
-                    | none => (false, st, ins)
-                    | some gbi =>
-                      let ga := st.aGrp[gai]?.getD default
-                      let gb := st.bGrp[gbi]?.getD default
-                      if gb.onDev != "" then (gb.onDev == ga.g.name, st, ins)
-                      else if ga.needed then (false, st, ins)
-                      else
-                        let (b, st) := hasEqLists diff fuel st ga.g.members gb.g.members (.group ga.g.name)
-                        if b then
-                          (true, { st with
-                            aGrp := modAt st.aGrp gai (fun g => { g with needed := true }),
-                            bGrp := modAt st.bGrp gbi (fun g =>
-                              { g with needed := false, onDev := ga.g.name }) }, ins)
-                        else (false, st, ins)) (true, st, ins)) (true, s, ins) =
-          (true, s.emitAll ((delNamesOf la rs').map path.delCmd), ins ++ insertedOf lb rs') := by
-      intro rs'
-      induction rs' with
-      | nil => intro s ins _ _ _; simp [delNamesOf, insertedOf, emitAll_nil]
-      | cons r rs' ih =>
-        intro s ins hb hsA hsB
-        simp only [List.foldl_cons, Bool.not_true, Bool.false_eq_true, if_false]
-        cases hk : r.kind with
-        | del =>
-          simp only [delNamesOf, insertedOf, hk]
-          rw [ih _ _ (fun r' hr' => hb r' (List.mem_cons_of_mem _ hr')) hsA hsB]
-          simp [emitAll_emitAll]
-        | ins =>
-          simp only [delNamesOf, insertedOf, hk]
-          rw [adaptGroups_plain s _ (fun y hy => hsB y (mem_extract hy))]
-          simp only
-          rw [ih _ _ (fun r' hr' => hb r' (List.mem_cons_of_mem _ hr')) hsA hsB]
-          simp [List.append_assoc]
-        | eq =>
-          simp only [delNamesOf, insertedOf, hk]
-          have hinner : ∀ (ks : List Nat), (∀ k ∈ ks, r.lowA + k < la.length) →
-              ks.foldl (fun (acc : Bool × St × List String) k =>
-                let (ok, st, ins) := acc
-                if !ok then acc
-                else
-                  match st.aGrpIdx (la.getD (r.lowA + k) "") with
-                  | none => acc
-                  | some gai =>
-                    match st.bGrpIdx (lb.getD (r.lowB + k) "") with
-                    | none => (false, st, ins)
-                    | some gbi =>
-                      let ga := st.aGrp[gai]?.getD default
-                      let gb := st.bGrp[gbi]?.getD default
-                      if gb.onDev != "" then (gb.onDev == ga.g.name, st, ins)
-                      else if ga.needed then (false, st, ins)
-                      else
-                        let (b, st) := hasEqLists diff fuel st ga.g.members gb.g.members (.group ga.g.name)
-                        if b then
-                          (true, { st with
-                            aGrp := modAt st.aGrp gai (fun g => { g with needed := true }),
-                            bGrp := modAt st.bGrp gbi (fun g =>
-                              { g with needed := false, onDev := ga.g.name }) }, ins)
-                        else (false, st, ins)) (true, s, ins) = (true, s, ins) := by
-            intro ks
-            induction ks with
-            | nil => intro _; rfl
-            | cons k ks ihk =>
-              intro hks
-              have hk0 := hsA _ (getD_mem (hks k (by simp)))
-              simp only [List.foldl_cons, Bool.not_true, Bool.false_eq_true, if_false, hk0]
-              exact ihk (fun k' hk' => hks k' (List.mem_cons_of_mem _ hk'))
-          rw [hinner _ (by
-            intro k hk'
-            have := hb r (by simp)
-            simp only [List.mem_range] at hk'
-            omega)]
-          exact ih _ _ (fun r' hr' => hb r' (List.mem_cons_of_mem _ hr')) hsA hsB
-    rw [key rs st [] hbound hA hB]
+  · rfl
+  · rw [rangeStep_plain (hasEqLists diff fuel) la lb path rs st [] hbound hA hB]
     simp only [List.nil_append]
     split
     · rename_i he
-      simp [listCmds, he]
-    · rename_i he
-      simp only [Bool.not_eq_true] at he
-      simp [listCmds, he, St.emit, St.emitAll, List.append_assoc]
+      simp at he
+    · split
+      · rename_i he
+        simp [listCmds, he, emitAll_nil]
+      · rename_i he
+        simp only [Bool.not_eq_true] at he
+        simp [listCmds, he, St.emit, St.emitAll, List.append_assoc]
+
+end NA.PanOs
+
+namespace NA.PanOs
+
+theorem validFrom_bounds {eq : Nat → Nat → Bool} {n m : Nat} :
+    ∀ (rs : List Range) (x y : Nat), validFrom eq n m x y rs = true → ∀ r ∈ rs, r.highA ≤ n := by
+  intro rs
+  induction rs with
+  | nil => intro x y _ r hr; cases hr
+  | cons r0 rs ih =>
+    intro x y h r hr
+    obtain ⟨_, _, _, _, h5, _, h7⟩ := validFrom_cons h
+    rcases List.mem_cons.mp hr with rfl | hr
+    · exact h5
+    · exact ih _ _ h7 r hr
+
+theorem validScript_bounds {eq : Nat → Nat → Bool} {n m : Nat} {rs : List Range}
+    (h : validScript eq n m rs = true) : ∀ r ∈ rs, r.highA ≤ n := by
+  unfold validScript at h
+  rw [Bool.or_eq_true] at h
+  rcases h with h | h
+  · exact validFrom_bounds rs 0 0 h
+  · simp only [Bool.and_eq_true, decide_eq_true_eq, beq_iff_eq] at h
+    obtain ⟨_, hrs⟩ := h
+    subst hrs
+    intro r hr
+    simp only [nothingCommon, List.mem_cons, List.not_mem_nil, or_false] at hr
+    rcases hr with rfl | rfl <;> simp
+
+/-- The nothing-in-common script always takes the replace branch. -/
+theorem nothingCommon_replace (n m : Nat) (hn : 0 < n) (hm : 0 < m) :
+    replaceInstead n (deletedCount (nothingCommon n m)) = true := by
+  have h2 : (0 == m) = false := by
+    have : 0 ≠ m := by omega
+    simpa using this
+  simp [nothingCommon, deletedCount, Range.isDelete, h2, replaceInstead]
+  omega
+
+theorem validScript_incremental {eq : Nat → Nat → Bool} {n m : Nat} {rs : List Range}
+    (h : validScript eq n m rs = true) (hr : replaceInstead n (deletedCount rs) = false) :
+    validFrom eq n m 0 0 rs = true := by
+  unfold validScript at h
+  rw [Bool.or_eq_true] at h
+  rcases h with h | h
+  · exact h
+  · simp only [Bool.and_eq_true, decide_eq_true_eq, beq_iff_eq] at h
+    obtain ⟨⟨hn, hm⟩, hrs⟩ := h
+    subst hrs
+    rw [nothingCommon_replace n m hn hm] at hr
+    cases hr
+
+theorem memberEq_plain (st : St) (la lb : List String)
+    (hA : ∀ x ∈ la, st.aGrpIdx x = none) (hB : ∀ y ∈ lb, st.bGrpIdx y = none) :
+    ∀ i j, i < la.length → j < lb.length →
+      memberEq st (la.getD i "") (lb.getD j "") = true → la.getD i "" = lb.getD j "" := by
+  intro i j hi hj h
+  unfold memberEq at h
+  rw [hA _ (getD_mem hi), hB _ (getD_mem hj)] at h
+  simpa using h
+
+theorem memOf_delCmd (p : MPath) (m : String) : memOf (p.delCmd m) = some (.del m) := by
+  cases p <;> rfl
+
+theorem memOf_addCmd (p : MPath) (ms : List String) : memOf (p.addCmd ms) = some (.add ms) := by
+  cases p <;> rfl
+
+theorem listCmds_memOf (path : MPath) (la lb : List String) (rs : List Range) :
+    (listCmds path la lb rs).filterMap memOf =
+      (delNamesOf la rs).map MemOp.del ++
+        (if (insertedOf lb rs).isEmpty then [] else [MemOp.add (insertedOf lb rs)]) := by
+  unfold listCmds
+  rw [List.filterMap_append]
+  congr 1
+  · generalize delNamesOf la rs = l
+    induction l with
+    | nil => rfl
+    | cons x xs ih => simp [memOf_delCmd, ih]
+  · split <;> simp [memOf_addCmd]
+
+end NA.PanOs
+
+namespace NA.PanOs
+
+/-! ### Idempotence on member lists -/
+
+/-- `myers.Diff` on two sides of the same length whose elements are equal position by
+position returns the identity script (one equal range). -/
+def IdentityDiffer (diff : Differ) : Prop :=
+  ∀ n eq, (∀ i, i < n → eq i i = true) → diff n n eq = [⟨0, n, 0, n⟩]
+
+theorem identity_listCmds (path : MPath) (la : List String) :
+    listCmds path la la [⟨0, la.length, 0, la.length⟩] = [] ∧
+      deletedCount [⟨0, la.length, 0, la.length⟩] = 0 := by
+  cases hl : la.length with
+  | zero =>
+    have : la = [] := List.eq_nil_of_length_eq_zero hl
+    subst this
+    simp [listCmds, delNamesOf, insertedOf, Range.kind, Range.isDelete, deletedCount, List.extract]
+  | succ n =>
+    have h1 : (0 == n + 1) = false := by simp
+    simp [listCmds, delNamesOf, insertedOf, Range.kind, Range.isDelete, Range.isInsert, deletedCount, h1]
+
+/-- A member list that already equals the target list (no groups involved) produces no request
+and no change of the planner state. -/
+theorem equalizeList_same (diff : Differ) (hid : IdentityDiffer diff) (fuel : Nat) (st : St)
+    (la : List String) (n : String) (f : Fld)
+    (hA : ∀ x ∈ la, st.aGrpIdx x = none) (hB : ∀ y ∈ la, st.bGrpIdx y = none) :
+    equalizeList diff (fuel + 1) st la la n f = st := by
+  have hd : diff la.length la.length (fun i j => memberEq st (la.getD i "") (la.getD j "")) =
+      [⟨0, la.length, 0, la.length⟩] := by
+    apply hid
+    intro i hi
+    unfold memberEq
+    rw [hA _ (getD_mem hi), hB _ (getD_mem hi)]
+    simp
+  unfold equalizeList
+  rw [hasEqLists_plain diff fuel st la la (.rule n f) hA hB (by rw [hd]; simp)]
+  obtain ⟨h1, h2⟩ := identity_listCmds (.rule n f) la
+  rw [hd, h1, h2]
+  simp [replaceInstead, emitAll_nil]
 
 end NA.PanOs
